@@ -5,6 +5,8 @@ import json, os, re
 V = "/verif"
 rows = []
 for sid in sorted(os.listdir(os.path.join(V, "seeded"))):
+    if not sid.startswith("seed-"):
+        continue
     m = json.load(open(os.path.join(V, "seeded", sid, "meta.json")))
     need = (m.get("needs_to_manifest") or "").strip().split("\n")
     # first meaningful line of the README as a summary
@@ -39,6 +41,26 @@ out.append("| seed | property | what the change does | reported by (now) | first
 out.append("|---|---|---|---|---|")
 out.extend(rows)
 out.append("")
+rroot = os.path.join(V, "seeded", "refactors")
+if os.path.isdir(rroot):
+    out.append("### Behaviour-preserving refactorings written by sub-agents\n")
+    out.append("Six agents (one per source area) each wrote four independent refactorings that keep all observable behaviour\n"
+               "(existing tests re-confirmed). `selftest/run_refactors.py` applies each to a scratch copy and runs **all** property\n"
+               "checks; every check must stay silent. `alarms` is the state after the rules were made robust; `first run` is the\n"
+               "honest history (11 of the 24 raised false alarms at first, each traced to a rule that matched a code shape instead of\n"
+               "a meaning and rewritten, see section 0).\n")
+    out.append("| refactoring | what it restructures | alarms now |")
+    out.append("|---|---|---|")
+    for rid in sorted(os.listdir(rroot)):
+        mp = os.path.join(rroot, rid, "meta.json")
+        if not os.path.exists(mp):
+            continue
+        rm = json.load(open(mp))
+        why = (rm.get("why") or "").strip().split("\n")
+        first = next((l.strip("# ").strip() for l in why if len(l.strip()) > 20), "")[:200]
+        al = rm.get("alarms")
+        out.append("| %s | %s | %s |" % (rid, first.replace("|", "/"), "not run" if al is None else ("none" if not al else ", ".join(sorted(al)))))
+    out.append("")
 out.append("Own corpus (`selftest/mutants.json`, run by `selftest/run.py`): %d must-fire mutants and %d behaviour-preserving\n"
            "refactors that must stay silent:\n" % (len(fire), len(silent)))
 for m in ms:
